@@ -285,6 +285,24 @@ class Evaluator:
             if not isinstance(l, bool):
                 raise Unknown("|| on non-bool")
             return l or self._bool(self.eval(e["right"], env))
+        if op in ("+=", "-="):
+            r = self.eval(e["right"], env)
+            tgt = e["left"]
+            cur = self.eval(tgt, env)
+            if not (isinstance(cur, int) and isinstance(r, int)) or isinstance(cur, bool):
+                raise Unknown("compound assignment on non-int")
+            if op == "-=" and cur < r and not isinstance(cur, SInt):
+                raise Panic("unsigned-underflow", e.get("l"))
+            nv = cur + r if op == "+=" else cur - r
+            if tgt.get("k") == "field":
+                b = self.eval(tgt["base"], env)
+                if isinstance(b, dict):
+                    b[tgt["member"]] = nv
+                    return ()
+            if tgt.get("k") == "path" and len(tgt["path"]) == 1 and tgt["path"][0] in env:
+                env["__assign__"](tgt["path"][0], nv)
+                return ()
+            raise Unknown("compound assignment target")
         l = self.eval(e["left"], env)
         r = self.eval(e["right"], env)
         if op in ("==", "!="):
